@@ -30,18 +30,19 @@ ASSUMPTIONS = [
 
 INJECT = ["none", "none", "raise_value", "raise_runtime", "raise_keyboard", "raise_abort", "raise_value_empty", "raise_keyboard_empty",
           "raise_assert_empty", "unknown_param", "probe_no_key", "nonfinite_param", "odd_param", "odd_param",
-          "init_keyboard", "init_abort", "init_value"]
+          "init_keyboard", "init_abort", "init_value", "unknown_param_nonstring",
+          "raise_key_empty", "raise_key_tuple", "raise_os_empty", "raise_args_two", "raise_system_exit"]
 NONFINITE = [float("inf"), float("-inf"), float("nan")]
 DETAILS = ["hash", "repr", "context", "all", "hash,repr"]
 
 
 @st.composite
 def c06_case(draw):
-    case = draw(gen.case(max_nodes=6))
+    case = draw(gen.case(max_nodes=6, rich_sweeps="numpy"))
     case["inject"] = draw(st.sampled_from(INJECT))
     case["pos"] = draw(st.integers(0, 12))
     case["detail"] = draw(st.sampled_from(DETAILS))
-    case["mode"] = draw(st.sampled_from(["file", "dir"]))
+    case["mode"] = draw(st.sampled_from(["file", "dir", "file", "dir_dotted"]))
     return case
 
 
@@ -94,6 +95,13 @@ def materialise(case: Dict[str, Any]) -> Dict[str, Any]:
             pname = M.LIB[c["nodes"][at]["p"]]["params"][0][0]
             (c["nodes"][at].get("params") or {}).pop(pname, None)
             c["ctx"][pname] = {"$odd": name}
+            applied, c["fault_index"] = inj, at
+    elif inj == "unknown_param_nonstring":
+        # YAML turns `on:` / `0:` into non-string keys; such a parameter name is unknown to every processor
+        idxs = [i for i, n in enumerate(c["nodes"]) if M.describe(n)["kind"] != "ctx" and not n.get("sweep") and not n.get("params")]
+        if idxs:
+            at = idxs[pos % len(idxs)]
+            c["nodes"][at]["params"] = {["$key:true", "$key:0", "$key:false"][pos % 3]: 1.0}
             applied, c["fault_index"] = inj, at
     elif inj == "unknown_param":
         idxs = [i for i, n in enumerate(c["nodes"]) if M.describe(n)["kind"] != "ctx" and not n.get("sweep")]
@@ -286,16 +294,17 @@ def valid(case: Any) -> bool:
     try:
         if not v1({k: case[k] for k in ("nodes", "ctx", "data")}):
             return False
-        return case.get("inject", "none") in INJECT and case.get("mode", "file") in ("file", "dir") and isinstance(case.get("pos", 0), int)
+        return case.get("inject", "none") in INJECT and case.get("mode", "file") in ("file", "dir", "dir_dotted") and isinstance(case.get("pos", 0), int)
     except Exception:
         return False
 
 
 def label_requirements(tier: str) -> Dict[str, Any]:
-    req: Dict[str, Any] = {"mode:file": 0.3, "mode:dir": 0.3, "ok": 0.15, "fails": 0.3}
-    for f in ("raise_value", "raise_keyboard", "raise_abort", "raise_value_empty", "raise_keyboard_empty", "raise_assert_empty", "nonfinite_param", "odd_param", "init_keyboard", "init_abort", "init_value",
+    req: Dict[str, Any] = {"mode:file": 0.3, "mode:dir": 0.15, "mode:dir_dotted": 0.1, "ok": 0.15, "fails": 0.3}
+    for f in ("raise_value", "raise_keyboard", "raise_abort", "raise_value_empty", "raise_keyboard_empty", "raise_assert_empty", "nonfinite_param", "odd_param", "init_keyboard", "init_abort", "init_value", "unknown_param_nonstring",
+              "raise_key_empty", "raise_key_tuple", "raise_os_empty", "raise_args_two", "raise_system_exit",
               "unknown_param", "probe_no_key", "unresolved_parameter", "type_gate", "processor_exception"):
-        req["fault:" + f] = 0.015 if f != "nonfinite_param" else 0.008
+        req["fault:" + f] = 0.006
         for d in ("hash", "repr", "context", "all"):
             req[f"fault:{f}|detail:{d}"] = 1
     req["fault:undeclared_write"] = 3
